@@ -324,6 +324,11 @@ type Exec struct {
 	// the declaration to inline or nil to treat the call as before.
 	InlineCallee func(f *types.Func) *ast.FuncDecl
 	Inlined      map[string]int // callee name -> number of in-place explorations
+	// BoolReturns: a `return <bool expr>` of the explored function is split on
+	// the expression's atoms and recorded as returning "true" / "false".
+	BoolReturns bool
+	// GoHook, when set, is called for every go statement after its GO effect.
+	GoHook func(st *State, s *ast.GoStmt, env *Env) *State
 	depth        int
 	sink         func(st *State, kind string, pos token.Pos, rs *ast.ReturnStmt, ret []string)
 	ctxs         map[*ast.BlockStmt]*fnCtx
@@ -617,6 +622,16 @@ func (x *Exec) execReturn(st *State, rs *ast.ReturnStmt) []*State {
 		}
 		states = next
 	}
+	if x.BoolReturns && x.depth == 0 && len(rs.Results) == 1 {
+		if b, ok := x.P.TypeOf(rs.Results[0]).Underlying().(*types.Basic); ok && b.Kind() == types.Bool {
+			for _, s := range states {
+				for _, o := range x.EvalBool(s, rs.Results[0], nil) {
+					x.sink(o.St, "return", rs.Pos(), rs, []string{strconv.FormatBool(o.V)})
+				}
+			}
+			return states
+		}
+	}
 	for _, s := range states {
 		var ret []string
 		for _, r := range rs.Results {
@@ -711,7 +726,11 @@ func (x *Exec) execStmt(st *State, s ast.Stmt, env *Env, inSelectArm bool) []*St
 		}
 		var out []*State
 		for _, c := range states {
-			out = append(out, x.Effect(c, "GO", s.Pos(), map[string]string{"fn": x.canonEnv(s.Call.Fun, env)}))
+			c = x.Effect(c, "GO", s.Pos(), map[string]string{"fn": x.canonEnv(s.Call.Fun, env)})
+			if x.GoHook != nil {
+				c = x.GoHook(c, s, env)
+			}
+			out = append(out, c)
 		}
 		return out
 	case *ast.DeclStmt:
